@@ -98,10 +98,22 @@ class ListOf(Shape):
 
 
 class TupleOf(Shape):
-    """A tuple of unknown length (symbolic spine)."""
+    """A tuple of unknown length (symbolic spine); with `elem_cls`, every element is an object of that class with
+    unknown fields (the type invariant of the container: elements drawn from it carry the class hint, as ObjVal does)."""
+
+    def __init__(self, elem_cls=None):
+        self.elem_cls = elem_cls
 
     def make(self, ip, name):
-        return ZSeq(V.fresh(name, V.VS), "tuple")
+        s = V.fresh(name, V.VS)
+        if self.elem_cls is not None:
+            # type invariant of the container, as ObjVal states it for one value: every element is an object value of the class
+            j = z3.Int(f"{name}!j")
+            e = s[j]
+            ip.path.assume(z3.ForAll([j], z3.Implies(z3.And(j >= 0, j < z3.Length(s)), z3.And(
+                V.is_obj(e), V.Val.cls(e) == ip.program.class_id(self.elem_cls),
+                z3.Length(V.Val.fields(e)) == len(ip.instance_attrs(self.elem_cls))))))
+        return ZSeq(s, "tuple", elem_cls=self.elem_cls)
 
 
 class DictVal(Shape):
